@@ -419,7 +419,9 @@ def verdict(prop, tier, seed, merged, l1, t0, level_extra=None, spec="TV_Store")
         for v in ub:
             new.append((dict(prop="C19", why="the process under test was stopped by the run time: %s" % v["what"].get("stderr", "")[-300:].strip(),
                              line=0, case=0, shard=v["shard"]), {}, read_ndjson(v["script"])))
-    if prop != "C01" and [v for v in merged.get("hangs", []) if not (prop == "C19" and v in ub)]:
+    # a death that is no finding of this property makes the run a tool error - unless the shards that did finish already
+    # showed a violation of the property, which is then reported
+    if prop != "C01" and not new and [v for v in merged.get("hangs", []) if not (prop == "C19" and v in ub)]:
         raise ToolError("the process under test hung or died while checking %s: %s" % (prop, merged["hangs"][0]["what"]))
     for k in known_hits.values():
         out_lines.append("KNOWN-FINDING: property=%s %s" % (prop, k.get("what", k["id"])))
